@@ -11,8 +11,8 @@ use crate::util::{Json, Rng};
 use hashbrown::verif::capacity_to_buckets;
 use std::collections::VecDeque;
 
-pub const C13_COLLS: [&str; 7] = ["map:P8xP8", "map:T24xT24", "map:B1xB1", "set:P8", "set:B6", "table:P8", "table:T24"];
-const PATTERNS: [&str; 5] = ["fifo", "lifo", "random", "window", "toggle"];
+pub const C13_COLLS: [&str; 9] = ["map:P8xP8", "map:T24xT24", "map:B1xB1", "set:P8", "set:B6", "table:P8", "table:T24", "map:L600xB1", "table:L4K"];
+const PATTERNS: [&str; 7] = ["fifo", "lifo", "random", "window", "toggle", "cycles", "cycles"];
 /// the monitor's bound: the table may hold at most this many times the buckets a fresh with_capacity(n) has
 const FACTOR: usize = 8;
 
@@ -76,15 +76,29 @@ pub fn scenario<C: Coll>(c: &mut Ctx, _idx: u64, rng: &mut Rng, name: &str) {
         id
     };
     let mut peak_bytes = 0usize;
+    let (mut draining, mut drain_order) = (false, 0u64);
     let mut allocs_seen = ckalloc::counters().allocs;
     for step in 0..steps {
         c.evaluations += 1;
         // choose between insert and remove according to the pattern, never exceeding n live elements
         let must_remove = live.len() >= n;
-        let do_remove = must_remove || (!live.is_empty() && rng.chance(2, 5));
+        // "cycles": fill up to the bound, then remove EVERYTHING (front, back or random order, drawn per cycle), and again:
+        // the table is empty of elements but full of tombstones when the next fill starts
+        if pattern == "cycles" {
+            if live.is_empty() && draining {
+                draining = false;
+                drain_order = rng.below(3);
+                c.bump("full_drain_cycles");
+            } else if must_remove {
+                draining = true;
+            }
+        }
+        let do_remove = if pattern == "cycles" { draining } else { must_remove || (!live.is_empty() && rng.chance(2, 5)) };
         let cap_before = col.capacity();
         if do_remove {
             let id = match pattern {
+                "cycles" if drain_order == 0 => live.pop_front().unwrap(),
+                "cycles" if drain_order == 1 => live.pop_back().unwrap(),
                 "fifo" | "window" => live.pop_front().unwrap(),
                 "lifo" | "toggle" => live.pop_back().unwrap(),
                 _ => {
